@@ -37,6 +37,7 @@ CONSTANTS
 
 
 def check_case(ctx: Ctx, c: Dict[str, Any], files: bool = False, scratch: str = "") -> None:
+    import numpy as np
     import SimpleITK as sitk
 
     from deepali.core.grid import Grid
@@ -167,6 +168,19 @@ def check_case(ctx: Ctx, c: Dict[str, Any], files: bool = False, scratch: str = 
         tol64 = bound(scale, F64, 1e-9)
         cmp("GridAttrs.index_to_physical_space", ga.index_to_physical_space(P), phys, tol64)
         cmp("GridAttrs.physical_space_to_continuous_index", ga.physical_space_to_continuous_index(P), index, tol64)
+        # INTEGER index arrays (tuple / list / ndarray of ints) give the same non-integer physical points; ITK's own integer-index API is the reference
+        ints = [[0] * D, [1] + [0] * (D - 1), [int(v) - 1 for v in n], [2, 1, 3][:D]]
+        iphys = [list(ref.TransformIndexToPhysicalPoint([int(v) for v in idx_])) for idx_ in ints]
+        for form_name, arg_i in (("list", ints), ("tuple", tuple(tuple(r) for r in ints)), ("ndarray", np.asarray(ints, dtype=np.int64)), ("int32", np.asarray(ints, dtype=np.int32))):
+            got_i = guarded("GridAttrs.index_to_physical_space", lambda: ga.index_to_physical_space(arg_i), ints=form_name)
+            if got_i is not None:
+                cmp("GridAttrs.index_to_physical_space[int indices]", np.asarray(got_i, dtype=float), iphys, tol64, ints=form_name)
+        got_1 = guarded("GridAttrs.index_to_physical_space", lambda: ga.index_to_physical_space(tuple(ints[3])), ints="single tuple")
+        if got_1 is not None:
+            cmp("GridAttrs.index_to_physical_space[int indices]", np.asarray(got_1, dtype=float), iphys[3], tol64, ints="single tuple")
+        back_i = guarded("GridAttrs.physical_space_to_index", lambda: ga.physical_space_to_index(np.asarray(iphys)), ints="roundtrip")
+        if back_i is not None and np.asarray(back_i).tolist() != ints:
+            ctx.violation(dict(op="GridAttrs.physical_space_to_index", **sig0), f"physical points of integer indices {ints} map back to {np.asarray(back_i).tolist()}", c)
     # ... and constructed directly, with the direction given flat and as a nested matrix
     from deepali.utils.simpleitk.grid import GridAttrs
 
